@@ -305,6 +305,29 @@ theorem C07_usable_after (f : Flags) (kind : CallKind) (o : ClientOut)
     usableAfter (o, fateAfter f kind.isCallback) = true := by
   simp [usableAfter, fateAfter, hcb, hcomm, hsec]
 
+/-- **C07_usable_after_roundtrip.**  The round trip of a single call leaves the proxy usable (no callback, no
+    Communication/SecurityError). -/
+theorem C07_usable_after_roundtrip {W : Type} (S : ServerEnv) (K : ClientEnv) (c : Codec W) (norm : Val → Val)
+    (dom : Val → Prop) (law : CodecLaw c norm dom) (R : Render) (kind : CallKind) (e : Exc) (tb : Val)
+    (hcontent : Content norm dom e tb) (hres : resolves K.names e.cls = some e.cls)
+    (hctor : K.ctor e.cls e.args = .ok (e.cls, e.args)) (hsend : Sendable (S.info e.cls))
+    (hcb : kind.isCallback = false) (hcomm : (S.info e.cls).isComm = false) (hsec : (S.info e.cls).isSecurity = false) :
+    usableAfter (clientCall S K c R kind (.raise e) tb) = true := by
+  rw [C07_roundtrip_partial S K c norm dom law R kind e tb hcontent hres hctor hsend]
+  exact C07_usable_after _ kind _ hcb hcomm hsec
+
+/-- **C07_usable_after_fallback.**  So does the fallback: after the generic error for an unserialisable exception the
+    next call goes through. -/
+theorem C07_usable_after_fallback {W : Type} (S : ServerEnv) (K : ClientEnv) (c : Codec W) (norm : Val → Val)
+    (dom : Val → Prop) (law : CodecLaw c norm dom) (R : Render) (kind : CallKind) (e : Exc) (tb : Val)
+    (htb : Lossless norm dom tb) (hun : c.dumps (excToDict (withTraceback tb e)) = none)
+    (hres : resolves K.names qPyroError = some qPyroError)
+    (hctor : ∀ m, K.ctor qPyroError [.str m] = .ok (qPyroError, [.str m])) (hsend : Sendable (S.info e.cls))
+    (hcb : kind.isCallback = false) (hcomm : (S.info e.cls).isComm = false) (hsec : (S.info e.cls).isSecurity = false) :
+    usableAfter (clientCall S K c R kind (.raise e) tb) = true := by
+  rw [(C07_fallback S K c norm dom law R kind e tb htb hun hres hctor hsend).1]
+  exact C07_usable_after _ kind _ hcb hcomm hsec
+
 /-- after a batch whose member raised, the connection is kept as well (second component of
     `C07_roundtrip_batch_partial` / `C07_fallback_batch`) -/
 theorem C07_usable_after_batch (o : ClientOut) : usableAfter (o, ConnFate.active) = true := by
